@@ -73,6 +73,10 @@ def run(ctx):
             tasks.append(dict(fn='check_bench', kw=dict(gate=gate, nin=nin)))
     for gate in ('NOT', 'BUFF'):
         tasks.append(dict(fn='check_bench', kw=dict(gate=gate, nin=1)))
+    for order in range(6):
+        tasks.append(dict(fn='check_bench_order', kw=dict(order=order)))
+        for merge in (True, False):
+            tasks.append(dict(fn='check_blif_order', kw=dict(order=order, merge=merge)))
     # one signal in both operand positions of a two-input gate (XOR(s, s) is constant 0)
     for gate in ('AND', 'OR', 'NAND', 'NOR', 'XOR'):
         tasks.append(dict(fn='check_bench', kw=dict(gate=gate, nin=1, operands=[0, 0])))
@@ -92,6 +96,10 @@ def run(ctx):
                 key = 'cover[nin=%d,terms=%d,out=%s]' % (kw['nin'], len(kw['rows']), kw['rows'][0][1])
             elif t['fn'] == 'check_flop':
                 key = 'flop[%s]' % kw['name']
+            elif t['fn'] == 'check_blif_order':
+                key = 'blif[command order %d, merge=%s]' % (kw['order'], kw['merge'])
+            elif t['fn'] == 'check_bench_order':
+                key = 'bench[statement order %d]' % kw['order']
             elif t['fn'] == 'check_bench' and kw.get('operands'):
                 key = 'bench[%s with a repeated operand]' % kw['gate']
             elif t['fn'] == 'check_bench' and kw['nin'] > 2:
